@@ -1,4 +1,4 @@
 SPECIFICATION GSpec
-CONSTANTS MaxLen = 6 Sim = FALSE UseRule = "nosimul" WithS = TRUE
+CONSTANTS MaxLen = 5 Sim = FALSE UseRule = "nosimul" WithS = TRUE
 INVARIANT NeverStale
 CHECK_DEADLOCK FALSE
